@@ -813,4 +813,25 @@ theorem emitSD_comment (K : PpKinds) (inp : Input) (path : Bytes) (out : POut) (
     emitSD K true inp path out (.node k [.node K.comment [.leaf o l n]]) =
       out.push (if (bytesOf inp o l).getLast? == some 10 then [10] else [32]) (some (path, ⟨o, o + l⟩)) := by
   simp [emitSD, commentEmit]
+
+/-! ### the define table is not touched by skip-list and push bookkeeping -/
+
+
+theorem skipPush_defines (w : WState) (t : Tree) : (w.skipPush t).defines = w.defines := by
+  unfold WState.skipPush; split <;> rfl
+
+theorem skipPushAll_defines (w : WState) (ts : List Tree) : (skipPushAll w ts).defines = w.defines := by
+  unfold skipPushAll
+  induction ts generalizing w with
+  | nil => rfl
+  | cons t ts ih => rw [List.foldl_cons, ih, skipPush_defines]
+
+
+theorem foldl_pushLoc_defines (inp : Input) (path : Bytes) (ts : List Tree) (w : WState) :
+    (ts.foldl (pushLoc inp path) w).defines = w.defines := by
+  induction ts generalizing w with
+  | nil => rfl
+  | cons t ts ih => rw [List.foldl_cons, ih]; unfold pushLoc; split <;> rfl
+
+
 end Sv
